@@ -535,6 +535,30 @@ theorem c34_u32_skip_ends_at (kdf : Kdf S K) (y : Recv S K) (g : Nat) (h : g ≥
     (Recv.skip kdf (g - y.head.gen) y).head.gen = g := by
   rw [skip_gen]; omega
 
+/-- The source's window index `((generation_head - generation) as i32) - 1` with its
+    `window_index >= 0` test, over naturals: the `u32 → i32` cast wraps distances `≥ 2³¹` to
+    negative numbers, which the test turns into `IndexOutOfBounds`. -/
+def windowIndexI32 (d : Nat) : Option Nat :=
+  if d < 2147483648 then (if 1 ≤ d then some (d - 1) else none) else none
+
+/-- **The `i32` cast is transparent.** For a late request (`g < hd`, both `u32`) and a queue of
+    fewer than 2³¹ entries (the `VecDeque` of 40-byte entries cannot be larger on any target), the
+    lookup through the cast index finds exactly what the model's `past[hd - g - 1]?` finds; when
+    the cast goes negative both are "no entry" (`IndexOutOfBounds`). -/
+theorem c34_i32_window_index (past : List (Option K)) (hd g : Nat) (hlt : g < hd)
+    (hl : past.length < 2147483648) :
+    (match windowIndexI32 (hd - g) with
+     | some i => past[i]?
+     | none => none) = past[hd - g - 1]? := by
+  unfold windowIndexI32
+  by_cases h : hd - g < 2147483648
+  · have h1 : 1 ≤ hd - g := by omega
+    simp [h, h1]
+  · simp only [h, if_false]
+    symm
+    apply List.getElem?_eq_none
+    omega
+
 /-! ## Non-vacuity (kdf instantiated with secret = generation number, key = secret) -/
 
 private def kdfN : Kdf Nat Nat := { key := id, next := (· + 1) }
